@@ -1336,10 +1336,25 @@ def gen_msa_inputs(rng, ctx):
             c[int(rng.integers(len(c)))] = size - 1      # a code at the top of the alphabet
         codes.append(np.asarray(c, dtype=np.int64))
     seqs = [make_seq(kind, size, c) for c in codes]
+    # the same Sequence *object* may legitimately occur several times in the input list
+    shared = 0
+    for i in range(1, k):
+        j = int(rng.integers(0, i))
+        if rng.random() < 0.25 and np.array_equal(codes[i], codes[j]):
+            seqs[i] = seqs[j]
+            shared += 1
+    if shared == 0 and rng.random() < 0.15:
+        i, j = sorted(int(x) for x in rng.choice(k, size=2, replace=False))
+        codes[j] = codes[i].copy()
+        seqs[j] = seqs[i]
+        shared = 1
+    if shared:
+        ctx.op("msa_same_object_repeated")
     gp = rand_penalty(rng, strict=True)
     tp = bool(rng.random() < 0.6)
     ctx.log("align_multiple", {"alphabet": [kind, size], "matrix": mdesc, "codes": [c.tolist() for c in codes],
-                               "gap_penalty": gp, "terminal_penalty": tp, "mode": mode})
+                               "gap_penalty": gp, "terminal_penalty": tp, "mode": mode,
+                               "same_object": [[i, j] for i in range(k) for j in range(i) if seqs[i] is seqs[j]]})
     ctx.op("msa_alphabet:" + kind)
     ctx.op("msa_mode:" + mode)
     ctx.op("msa_penalty:" + ("affine" if isinstance(gp, tuple) else "linear"))
